@@ -167,7 +167,9 @@ def run(ctx):
     else:
         ctx.harness_error("lemma", r)
     relaxation(ctx, z3)
-    ctx.run_xh([Job("c19.py", "h_verdict", None, 120 if ctx.quick() else 600, 30, tag="all percentage tuples")])
+    ctx.run_xh([Job("c19.py", "h_verdict", None, 120 if ctx.quick() else 600, 30, tag="all percentage tuples"),
+                Job("c19.py", "h_summary_real", None, 120 if ctx.quick() else 600, 30, tag="real reports: 5 codebases x (no | 5 comparison reports) x text/markdown x figures asked 0..2 times before")])
+    ctx.bounds["summary of real reports"] = "print_report (text and Markdown) on Report objects of 5 small codebases, alone or compared with each of the 5, after 0..2 earlier requests for the percentages: table and verdict are those of the current report"
 
 
 def relaxation(ctx, z3):
